@@ -22,3 +22,22 @@ Definition progresses {V} (dom : list Z -> Prop) (f : list Z -> res (V * Z)) : P
 
 (* Unicode: what a WTF-8 decoder may return *)
 Definition is_code_point (c : Z) : Prop := 0 <= c <= 1114111.
+
+(* ---- a fully escaped, balanced RE2 pattern (for globstar_regexp_wellformed) ----
+   RE2 syntax (https://github.com/google/re2/wiki/Syntax): the bytes with a meaning
+   outside a character class are  \ ^ $ . | ? * + ( ) [ ] { } ; any punctuation may be
+   escaped with a backslash.  A pattern that is ^ item* $ with the items below parses:
+   every group and class is opened and closed inside one item. *)
+Definition re_special (c : Z) : bool :=
+  (c =? 92) || (c =? 94) || (c =? 36) || (c =? 46) || (c =? 124) || (c =? 63) || (c =? 42) || (c =? 43) ||
+  (c =? 40) || (c =? 41) || (c =? 91) || (c =? 93) || (c =? 123) || (c =? 125).
+
+Inductive re_item : list Z -> Prop :=
+| re_escaped c : re_special c = true -> re_item [92; c]            (* \c *)
+| re_any : re_item [46]                                            (* .  *)
+| re_segment : re_item [91;94;47;93;42]                            (* [^/]* *)
+| re_globstar : re_item [40;63;58;91;94;47;93;42;40;63;58;47;124;36;41;41;42]   (* (?:[^/]*(?:/|$))* *)
+| re_literal c : re_special c = false -> re_item [c].
+
+Definition wf_pattern (p : list Z) : Prop :=
+  exists items, Forall re_item items /\ p = [94] ++ concat items ++ [36].
